@@ -5,7 +5,7 @@ ANCHORED = {'len', 'int', 'float', 'str', 'dict', 'list', 'startswith', 'endswit
             'match_groups', 'match_all', 'pretty', 'keys', 'values', 'items', 'sum', 'get', '__getitem__', '__delitem__', '__setitem__',
             '__setitem_with_op__', 'map', 'filter', 'reduce', 'join', 'split', 'round', 'floor', 'ceil', 'abs', 'min', 'max', 'rand', 'push',
             'pop', 'insert', 'remove', 'sorted', 'reversed', 'enumerate', 'shuffle', 'index_of'}
-MUT_SHAPES = {'push': ['LI', 'LN', 'LC'], 'pop': ['L', 'LZ'], 'insert': ['LZI', 'LZY'], 'remove': ['LI', 'DS'], '__setitem__': ['LZI', 'DSN', 'DAC'],
+MUT_SHAPES = {'push': ['LI', 'LN', 'LC'], 'pop': ['L', 'LZ', 'DS', 'DX', 'DXZ', 'LX'], 'insert': ['LZI', 'LZY'], 'remove': ['LI', 'DS'], '__setitem__': ['LZI', 'DSN', 'DAC'],
               '__setitem_with_op__': ['LZSI'], '__delitem__': ['LZ', 'DS']}
 
 
@@ -20,6 +20,8 @@ def plan(ctx):
         uncovered.append(f"function table exposes {nme!r}, which the property's anchor does not list: only generic argument shapes were tried")
     for name in sorted(FUNCTIONS):
         shapes = list(c13.SHAPES.get(name, [])) + list(h.EXTRA_SHAPES.get(name, [])) + list(MUT_SHAPES.get(name, []))
+        # rarely used extra arguments: a codec-like / option-like string after the usual ones
+        shapes += [sh + 'O' for sh in (c13.SHAPES.get(name, []) or ['S'])[:2]] + ['SO', 'SOO']
         if not shapes:
             shapes = c13.GENERIC + ['A', 'T', 'LC']
         for sh in shapes:
